@@ -4,6 +4,8 @@ import CoupeModel.Model.Grid
 import CoupeModel.Proofs.Metrics
 import CoupeModel.Proofs.Imbalance
 import CoupeModel.Proofs.Grid
+import CoupeModel.Model.MetricsFast
+import CoupeModel.Proofs.MetricsFast
 
 /-!
 # C16 — edge cut, lambda cut and imbalance agree with their definitions
@@ -437,6 +439,20 @@ example : computePartsLoad? [0, 1, 0, 1] 3 [2, 1, 3, 2] = some [5, 3, 0] ∧
 
 end Coupe.Metrics
 
+namespace Coupe.Metrics
+
+/-- The array-backed evaluator the driver runs on the LARGE cases
+(`Model/MetricsFast.lean`) computes exactly the model's values. -/
+theorem fast_eval_eq_model (t : Topo) (n : Nat) (rows : Nat → Row) (nbIds : Nat → List Nat)
+    (p : Array Nat) (ws : Array Int) :
+    edgeCutTopoA t p = edgeCutTopo t p.toList ∧
+    edgeCutSprsRowsA n rows p = edgeCutSprsRows n rows p.toList ∧
+    lambdaRowsA n nbIds p ws = lambdaRows n nbIds p.toList ws.toList :=
+  ⟨edgeCutTopoA_eq t p, edgeCutSprsRowsA_eq n rows p, lambdaRowsA_eq n nbIds p ws⟩
+
+end Coupe.Metrics
+
+
 #print axioms Coupe.Metrics.edgecut_sprs_eq_generic
 #print axioms Coupe.Metrics.edgecut_sprs_eq_generic_fixed
 #print axioms Coupe.Metrics.edgecut_sprs_eq_generic_rows
@@ -460,3 +476,4 @@ end Coupe.Metrics
 #print axioms Coupe.Metrics.imbalance_target_def
 #print axioms Coupe.Metrics.imbalance_def
 #print axioms Coupe.Metrics.imbalance_zero
+#print axioms Coupe.Metrics.fast_eval_eq_model
